@@ -1078,24 +1078,28 @@ package variants
 //@   requires self != nil
 //@   ensures[C03,C19] (result != nil) != (err != nil)
 //@   ensures[C03] err == nil ==> vinv(result)
+//@   ensures[C06,C08] value1 != nil && value2 != nil && (value1.typ == Null || value2.typ == Null) && err == nil ==> result.typ == Null
 //@   assigns nothing
 //@   nopanic
 //@ interface IVariantOperations.Less(self, value1, value2)
 //@   requires self != nil
 //@   ensures[C03,C19] (result != nil) != (err != nil)
 //@   ensures[C03] err == nil ==> vinv(result)
+//@   ensures[C06,C08] value1 != nil && value2 != nil && (value1.typ == Null || value2.typ == Null) && err == nil ==> result.typ == Null
 //@   assigns nothing
 //@   nopanic
 //@ interface IVariantOperations.MoreEqual(self, value1, value2)
 //@   requires self != nil
 //@   ensures[C03,C19] (result != nil) != (err != nil)
 //@   ensures[C03] err == nil ==> vinv(result)
+//@   ensures[C06,C08] value1 != nil && value2 != nil && (value1.typ == Null || value2.typ == Null) && err == nil ==> result.typ == Null
 //@   assigns nothing
 //@   nopanic
 //@ interface IVariantOperations.LessEqual(self, value1, value2)
 //@   requires self != nil
 //@   ensures[C03,C19] (result != nil) != (err != nil)
 //@   ensures[C03] err == nil ==> vinv(result)
+//@   ensures[C06,C08] value1 != nil && value2 != nil && (value1.typ == Null || value2.typ == Null) && err == nil ==> result.typ == Null
 //@   assigns nothing
 //@   nopanic
 //@ interface IVariantOperations.In(self, value1, value2)
